@@ -671,10 +671,16 @@ def setup():
     first = next((h for h in hs if h["name"] == "c20_gte_lex"), hs[0])
     s0 = os.path.join(TARGET, "s0")
     t0 = time.time()
-    r = sh(kani_cmd(first, "s0", os.path.join(LOGS, "setup.json")), cwd=CRATE, env=env(),
+    # one complete run of the cheapest harness: builds every dependency in slot s0 and shows
+    # that the whole pipeline (kani-compiler, goto-instrument, cbmc) works offline
+    r = sh(kani_cmd(first, "s0", None), cwd=CRATE, env=env(),
            stdout=subprocess.PIPE, stderr=subprocess.STDOUT, text=True)
-    print(r.stdout[-1500:])
-    if r.returncode != 0:
+    print(r.stdout[-800:])
+    # (in CBMC's plain output mode satisfied reachability witnesses count as "failures", so the
+    # exit code is not the verdict: parse it the same way the checks do)
+    checks = parse_plain(r.stdout)
+    bad = [c for c in checks if c["category"] not in ("cover", "reachability_check") and c["status"] != "SUCCESS"]
+    if not checks or bad or "VERIFICATION" not in r.stdout:
         print("setup: warm-up verification failed")
         return 1
     for i in range(1, MAX_JOBS):
